@@ -509,3 +509,16 @@ def has_cased_literal(pattern: str, flags: int = 0) -> Optional[str]:
                     return r
         return None
     return walk(p)
+
+
+def split_at_group(pattern: str, flags: int, group: int) -> Tuple[tuple, tuple]:
+    """(language of what precedes capturing group `group`, language of the group and what follows it) for a pattern
+    whose top level is a concatenation in which the group occurs - decided on the parsed regex, so the spelling of
+    the pieces (verbose mode, [^\\n]* for .*, non-capturing groups) does not matter."""
+    p = parse(pattern, flags)
+    items = list(p)
+    for i, (op, av) in enumerate(items):
+        if op is sre_c.SUBPATTERN and av[0] == group:
+            before = [it for it in items[:i]]
+            return _comp(before, EPS, p.state.flags), _comp(items[i:], EPS, p.state.flags)
+    raise Unsupported(f"capturing group {group} is not a top-level item of the pattern")
